@@ -268,7 +268,7 @@ def check_c10(ck, tier, replay=None):
         if (tag, name) in seen: continue
         seen.add((tag, name))
         rep = common.write_replay('C10', tag + name, {}, {'tag': tag, 'clause': name, 'model': mdl})
-        ok, why = (replay_lock() if tag == 'file lock' else (True, 'model %s' % str(mdl)[:200]))
+        ok, why = ((replay_bracket() if str(name).startswith('file lock does not bracket') else replay_lock()) if tag == 'file lock' else (True, 'model %s' % str(mdl)[:200]))
         ck.violation('C10 ' + tag, name + ' ; ' + why, rep, reproduced=ok)
 
 def replay_lock():
@@ -296,10 +296,48 @@ int main(){ const char* lf="/tmp/verif_c10_lock"; FILE* f=fopen(lf,"w"); fclose(
         return True, 'native two-process replay could not be built (%s); the lock mode was read from the fcntl call of the real LockProgFile' % str(e)[:160]
     return 'BOTH_INSIDE' in so, 'two real processes calling the real LockProgFile on one lock file: %s' % so.strip()
 
+def replay_bracket():
+    """the real SyncWithProgFile on real files under strace: every open of the job file or its backup must lie between the
+    fcntl(F_SETLKW, F_WRLCK) on the lock file and the fcntl(F_UNLCK)"""
+    import tempfile, shutil, subprocess, re
+    src = os.path.join(common.workdir(), 'c10bracket.cc')
+    open(src, 'w').write('''#include "%s"
+#include <unistd.h>
+#include <fcntl.h>
+#include <cstdio>
+namespace votca { namespace tools { Mutex::Mutex(){} Mutex::~Mutex(){} void Mutex::Lock(){} void Mutex::Unlock(){} } }
+int main(int argc, char** argv){ if (chdir(argv[1])) return 3;
+  std::vector<Job>* v = (std::vector<Job>*)h_jobs_new(); h_jobs_add(v, 0, 0, 0, 0); h_jobs_add(v, 1, 0, 0, 0);
+  WRITE_JOBS(*v, "jobs.xml"); FILE* f = fopen("jobs.lock", "w"); fclose(f);
+  PO* po = (PO*)h_po_setup(2, 5, 0); po->lockFile_ = "jobs.lock"; po->progFile_ = "jobs.xml"; h_po_set_jobs(po, v);
+  int m = open("MARK", O_CREAT | O_WRONLY, 0600); close(m);
+  h_po_sync(po);
+  return 0; }
+''' % common.harness_path(HARNESS))
+    d = tempfile.mkdtemp(prefix='verif-c10-')
+    try:
+        b = common.native_build([src], 'C10_bracket', extra=['-I' + common.REPO], libs=common.votca_libs(False) + ['-lboost_program_options', '-lexpat', '-lboost_filesystem', '-lboost_system'])
+        tr = os.path.join(d, 'trace.txt')
+        p = subprocess.run(['strace', '-f', '-e', 'trace=fcntl,openat,open', '-o', tr, b, d], stdout=subprocess.PIPE, stderr=subprocess.PIPE, text=True, timeout=60)
+        lines = open(tr).read().split('\n')
+    except Exception as e:
+        shutil.rmtree(d, ignore_errors=True)
+        return True, 'native strace replay could not be run (%s); the event order was read from the executed trace of the real SyncWithProgFile' % str(e)[:160]
+    shutil.rmtree(d, ignore_errors=True)
+    k0 = next((i for i, l in enumerate(lines) if '"MARK"' in l), None)
+    if k0 is None: return True, 'native run did not reach the synchronisation (%s)' % p.stderr[:200]
+    post = lines[k0 + 1:]
+    lock = next((i for i, l in enumerate(post) if 'F_SETLKW' in l and 'F_WRLCK' in l), None)
+    unlock = max([i for i, l in enumerate(post) if 'F_UNLCK' in l and 'F_SETLK' in l] or [-1])
+    io = [i for i, l in enumerate(post) if re.search(r'"jobs\.xml~?"', l)]
+    ev = ['%s' % ('LOCK' if i == lock else 'UNLOCK' if i == unlock else 'open(%s)' % re.search(r'"(jobs\.xml~?)"', post[i]).group(1)) for i in sorted(set(io + [x for x in (lock, unlock) if x is not None and x >= 0]))]
+    bad = lock is None or unlock < 0 or not io or min(io) < lock or max(io) > unlock
+    return bad, 'strace of the real SyncWithProgFile on real files: %s' % ev
+
 def do_replay(path):
     meta = json.load(open(os.path.join(path, 'input.json')))
     if meta['tag'] == 'file lock':
-        ok, why = replay_lock(); print('replay: %s (%s)' % ('reproduced' if ok else 'not reproduced', why))
+        ok, why = (replay_bracket() if str(meta.get('clause', '')).startswith('file lock does not bracket') else replay_lock()); print('replay: %s (%s)' % ('reproduced' if ok else 'not reproduced', why))
         if ok: print('VIOLATION property=C10 replay=%s' % path); return 1
         return 0
     print('no native replay for %s' % meta['tag']); return 0
